@@ -163,7 +163,9 @@ Definition arith_of_tok (k : tkind) : option (binop * nat) :=
 (* any_level *)
 Definition p_any_level (ts : list token) : pres (Z * list token) :=
   match ts with
-  | mktok TInt txt :: r => ROk (atoi_clamp L txt, r)
+  | mktok TInt txt :: r =>
+      (* anyLevel: strconv.ParseInt(text, 0, 0); any error means unbounded *)
+      ROk (match parse_int0 L txt with Some z => z | None => -1 end, r)
   | mktok (TKw KLast) _ :: r => ROk (-1, r)
   | _ => syn ts
   end.
